@@ -287,6 +287,10 @@ def freeze_baseline(pids):
             ids += [oid for oid, o in res.obligations.items() if o["status"] == "unsat"]
         base[pid] = sorted(set(ids))
         print(pid, len(base[pid]), "obligations frozen")
+    part = os.environ.get("VERIF_FREEZE_PART")      # parallel freezing: one part file per process, merged by tools/freeze_all.sh
+    if part:
+        json.dump({pid: base[pid] for pid in pids if pid in base}, open(part, "w"), indent=1)
+        return
     json.dump(base, open(p, "w"), indent=1)
 
 
